@@ -83,7 +83,8 @@ const WiredFnOps &fr_ops() {
     return ops;
 }
 
-WiringPortRef erased_nested(Wiring &w, const WiredFn &fn, std::vector<WiringPortRef> inputs, const std::string &label) {
+WiringPortRef erased_nested(Wiring &w, const WiredFn &fn, std::vector<WiringPortRef> inputs, const std::string &label,
+                            std::optional<std::vector<std::size_t>> active = std::nullopt) {
     std::vector<WiringPortRef> shapes;
     for (std::size_t i = 0; i < inputs.size(); ++i) shapes.push_back(subgraph_wiring_detail::boundary_shape(inputs[i], i, {}));
     CompiledSubGraph compiled = fn.compile(w, std::span<const WiringPortRef>{shapes.data(), shapes.size()});
@@ -101,6 +102,7 @@ WiringPortRef erased_nested(Wiring &w, const WiredFn &fn, std::vector<WiringPort
         meta.display_name = name;
         meta.input_schema = input_schema;
         meta.output_schema = compiled.output_schema;
+        if (active.has_value()) meta.active_inputs = *active;   // the nested NODE itself listens only to these slots
         SingleNestedGraphNodeSpec spec;
         spec.graph_builder = std::move(compiled.graph_builder);
         spec.input_bindings = std::move(compiled.input_bindings);
@@ -235,7 +237,11 @@ void wire_stmts(Scope &sc, const JV &stmts) {
             g_parent_scope = &sc;
             struct Restore { Scope *s; ~Restore() { g_parent_scope = s; } } restore{saved};
             if (op == "inline") out = fn.wire(w, std::span<const WiringPortRef>{ins.data(), ins.size()});
-            else out = erased_nested(w, fn, std::move(ins), sc.prefix + id);
+            else {
+                std::optional<std::vector<std::size_t>> active;
+                if (auto *a = st.get("active")) { active.emplace(); for (auto &x : a->a) active->push_back((std::size_t)x.as_int()); }
+                out = erased_nested(w, fn, std::move(ins), sc.prefix + id, std::move(active));
+            }
         } else if (op == "errcap") {
             WiringPortRef of = resolve_ref(sc, st.at("of"));
             const TSValueTypeMetaData *err_schema = w.activate_error_capture(of.peered_node(), node_error_ts_meta());
